@@ -460,34 +460,119 @@ pub fn run(tier: &str) -> i32 {
                 break 'acks;
             }
         }
-        // (b) random corpus lines from four sessions at once (token and admin sessions; cluster-reconfiguring words left out)
-        let skip = ["join", "leave", "replicate-join", "replicate-leave", "set-primary", "set-secoundary", "election", "debug", "create-db", "snapshot"];
-        let corpus: Vec<&(String, String)> = cases.iter().flat_map(|c| c.1.iter()).filter(|l| !skip.contains(&l.1.split('/').next().unwrap_or("")) && l.0.len() < 2000).collect();
+        // (b) random corpus lines from four sessions at once (token and admin sessions; words that reconfigure the cluster
+        // left out). The threads are not scoped: sessions that block each other for good must end in a report, not a hang.
+        let skip = ["join", "leave", "replicate-join", "replicate-leave", "set-primary", "set-secoundary", "election", "debug"];
+        let corpus: Arc<Vec<(String, String)>> = Arc::new(cases.iter().flat_map(|c| c.1.iter()).filter(|l| !skip.contains(&l.1.split('/').next().unwrap_or("")) && l.0.len() < 2000).cloned().collect());
         let per_thread = if thorough { 20_000 } else { 2_500 };
-        let panics: Mutex<Vec<(String, String)>> = Mutex::new(vec![]);
-        std::thread::scope(|sc| {
-            for t in 0..4u64 {
-                let (dbs, corpus, panics) = (&dbs, &corpus, &panics);
-                sc.spawn(move || {
-                    let mut r = Rng::new(seed().wrapping_mul(31).wrapping_add(t));
+        let panics: Arc<Mutex<Vec<(String, String)>>> = Arc::new(Mutex::new(vec![]));
+        let (done_tx, done_rx) = std::sync::mpsc::channel::<u64>();
+        for t in 0..4u64 {
+            let (dbs, corpus, panics, done_tx, dir) = (dbs.clone(), corpus.clone(), panics.clone(), done_tx.clone(), dir.clone());
+            let seed0 = seed();
+            std::thread::spawn(move || {
+                nundb::verif::set_dir(Some(dir));
+                let mut r = Rng::new(seed0.wrapping_mul(31).wrapping_add(t));
+                let mut s = Session::new();
+                if t % 2 == 0 {
+                    s.call(&dbs, "auth admin pwd");
+                }
+                s.call(&dbs, "use-db db tok");
+                for _ in 0..per_thread {
+                    let l = r.pick(&corpus);
+                    if let Err(e) = std::panic::catch_unwind(std::panic::AssertUnwindSafe(|| s.call(&dbs, &l.0))) {
+                        panics.lock().unwrap().push((l.1.clone(), panic_msg(&e)));
+                        break;
+                    }
+                }
+                let _ = done_tx.send(t);
+            });
+        }
+        drop(done_tx);
+        let mut finished = 0;
+        let deadline = std::time::Instant::now() + std::time::Duration::from_secs(if thorough { 900 } else { 240 });
+        while finished < 4 {
+            match done_rx.recv_timeout(std::time::Duration::from_secs(1)) {
+                Ok(_) => finished += 1,
+                Err(_) => {
+                    if std::time::Instant::now() > deadline {
+                        break;
+                    }
+                }
+            }
+        }
+        // (c) directed pairs: a command that walks the database map (and may take its lock again further down) against a
+        // stream of create-db, which needs that lock exclusively
+        let against_create_db: Vec<(&str, Vec<&str>)> = vec![
+            ("resolve", vec!["auth admin pwd", "use-db db tok", "set rk 1", "resolve 1 db rk 1 v"]),
+            ("conflicting-write", vec!["auth admin pwd", "use-db adb tok", "set ck 1", "set ck 2", "set-safe ck 0 c"]),
+            ("snapshot", vec!["auth admin pwd", "use-db db tok", "snapshot false db|adb"]),
+            ("use-db", vec!["use-db db tok", "use-db adb tok"]),
+            ("replicate", vec!["auth admin pwd", "replicate db rk2 1 v", "replicate-increment db rn 1", "replicate-remove db rk2"]),
+        ];
+        for (pi, (name, lines)) in against_create_db.iter().enumerate() {
+            if finished < 4 {
+                break; // the node is wedged already
+            }
+            let (tx, rx) = std::sync::mpsc::channel::<u8>();
+            let iterations = if thorough { 20_000 } else { 2_000 };
+            {
+                let (dbs, tx, dir, lines, panics) = (dbs.clone(), tx.clone(), dir.clone(), lines.iter().map(|x| x.to_string()).collect::<Vec<_>>(), panics.clone());
+                let arb_needed = *name == "conflicting-write";
+                std::thread::spawn(move || {
+                    nundb::verif::set_dir(Some(dir));
+                    let mut arb = Session::new();
+                    if arb_needed {
+                        arb.call(&dbs, "use-db adb tok");
+                        arb.call(&dbs, "arbiter");
+                    }
                     let mut s = Session::new();
-                    if t % 2 == 0 {
-                        s.call(dbs, "auth admin pwd");
-                    }
-                    s.call(dbs, "use-db db tok");
-                    for _ in 0..per_thread {
-                        let l = r.pick(corpus);
-                        if let Err(e) = std::panic::catch_unwind(std::panic::AssertUnwindSafe(|| s.call(dbs, &l.0))) {
-                            panics.lock().unwrap().push((l.1.clone(), panic_msg(&e)));
-                            return;
+                    for i in 0..iterations {
+                        let l = &lines[if i < lines.len() { i } else { lines.len() - 1 }];
+                        if let Err(e) = std::panic::catch_unwind(std::panic::AssertUnwindSafe(|| s.call(&dbs, l))) {
+                            panics.lock().unwrap().push((format!("{}/against-create-db", l.split(' ').next().unwrap_or("")), panic_msg(&e)));
+                            break;
                         }
+                        arb.drain();
                     }
+                    let _ = tx.send(0);
                 });
             }
-        });
+            {
+                let (dbs, tx, dir, panics) = (dbs.clone(), tx.clone(), dir.clone(), panics.clone());
+                std::thread::spawn(move || {
+                    nundb::verif::set_dir(Some(dir));
+                    let mut s = Session::new();
+                    s.call(&dbs, "auth admin pwd");
+                    for i in 0..iterations / 4 {
+                        if let Err(e) = std::panic::catch_unwind(std::panic::AssertUnwindSafe(|| s.call(&dbs, &format!("create-db c{}x{} tok", pi, i)))) {
+                            panics.lock().unwrap().push(("create-db/against".into(), panic_msg(&e)));
+                            break;
+                        }
+                    }
+                    let _ = tx.send(1);
+                });
+            }
+            drop(tx);
+            let mut got = 0;
+            let deadline = std::time::Instant::now() + std::time::Duration::from_secs(if thorough { 600 } else { 120 });
+            while got < 2 && std::time::Instant::now() < deadline {
+                if rx.recv_timeout(std::time::Duration::from_secs(1)).is_ok() {
+                    got += 1;
+                }
+            }
+            concurrent_rounds += iterations as u64;
+            if got < 2 {
+                v.report(json!({"check": "crash", "problem": "sessions-blocked-forever", "sessions": "concurrent", "word": name, "detail": "against create-db"}), json!({"pair": [lines, &vec!["create-db <new name> tok"]], "explanation": "the two sessions never came back from their commands: they block each other, and everybody who needs the database map after them"}));
+                finished = 0;
+            }
+        }
+        if finished < 4 && finished != 0 {
+            v.report(json!({"check": "crash", "problem": "sessions-blocked-forever", "sessions": "concurrent", "word": "", "detail": ""}), json!({"sessions_that_never_finished": 4 - finished, "explanation": "four sessions ran random lines of the corpus at once; some never came back from a command (the node is wedged for them)"}));
+        }
         concurrent_rounds += 4 * per_thread as u64;
-        let p = panics.into_inner().unwrap();
-        let poisoned_now = poisoned(&dbs);
+        let p: Vec<(String, String)> = panics.lock().unwrap().clone();
+        let poisoned_now = if finished < 4 { vec![] } else { poisoned(&dbs) };
         if !p.is_empty() || !poisoned_now.is_empty() {
             let word = p.first().map(|x| x.0.split('/').next().unwrap_or("").to_string()).unwrap_or_default();
             v.report(json!({"check": "crash", "problem": if !p.is_empty() { "handler-panicked" } else { "lock-poisoned" }, "word": word, "detail": first_panic_frame(p.first().map(|x| x.1.as_str()).unwrap_or("")), "sessions": "concurrent"}),
